@@ -79,6 +79,17 @@ def units(rng, tier):
             u["group"] = gid
             u["natural_ticks"] = T
             us.append(u)
+    # ---- cbldm without limit, dense: a binding cardinality bound on 5..8 small values (perfect but unbalanced partitions exist, the balanced
+    # optimum is positive): "with no limit the result is optimal" under the bound, judged by the oracle opt_balanced2 in extra_checks
+    for _ in range(2000 if tier == "quick" else 30000):
+        n = rng.randint(5, 8)
+        hi = rng.choice([5, 12, 12, 20, 30])
+        vals = [rng.randint(0 if rng.random() < 0.2 else 1, hi) for _ in range(n)]
+        p = {"vals": vals, "fmt": "list", "keep": True, "d": rng.choice([1, 1, 2, 3]), "limit": -1}
+        u = U("cbldm_clock", p, "cbldm/dense-unlimited-binding-bound")
+        u["group"] = UN.short(json.dumps(["cbldm_clock", p], sort_keys=True), 10 ** 6)
+        u["natural_ticks"] = 0
+        us.append(u)
     # ---- CKK generator
     for _ in range(250 if tier == "quick" else 2000):
         vals, fam = gen.values(rng, nmax=7, vmax=2 ** 40)
